@@ -320,6 +320,37 @@ static void tls_only_case(vh_rng* r, const char* who) {
   vh_count("managed_objects_referenced_by_thread_local_storage_only");
 }
 
+/* Plain managed objects that only a root Tuple refers to (its Mark instance hands each item to the collector): alive
+** through collections, the most recently made -- often the highest address the registry has seen -- included; taken
+** out and deleted by hand afterwards, finalised exactly once. */
+enum { NHELD = 6 };
+static var __attribute__((noinline)) make_root_tuple_holder(vh_rng* r, uintptr_t* masked, int64_t* ids) {
+  var holder = new_root(Tuple);
+  for (int i = 0; i < NHELD; i++) { var t = new_probe(r, HK_MANAGED, &ids[i]); push(holder, t); masked[i] = (uintptr_t)t ^ HIDE_MASK; t = NULL; }
+  return holder;
+}
+static void root_tuple_case(vh_rng* r, const char* who) {
+  uintptr_t masked[NHELD]; int64_t ids[NHELD];
+  var holder = make_root_tuple_holder(r, masked, ids);
+  uintptr_t mh = (uintptr_t)holder ^ HIDE_MASK; holder = NULL;
+  ring_scrub();
+  vh_op("%s six managed objects referenced by a root Tuple only; collect twice", who);
+  collect_now();
+  for (int i = 0; i < 10; i++) { int64_t id; var g = new_probe(r, HK_MANAGED, &id); g = NULL; }
+  collect_now();
+  for (int i = 0; i < NHELD; i++) {
+    vh_eval();
+    if (mo_state[ids[i]] != MO_CONSTRUCTED) { vh_violation("C06:root:object-referenced-by-a-root-tuple-finalised", "managed object id %" PRId64 " (item %d of a root Tuple) is in state %d after two collections", ids[i], i, mo_state[ids[i]]); }
+  }
+  holder = (var)(mh ^ HIDE_MASK);
+  while (len(holder) > 0) { pop(holder); }
+  for (int i = 0; i < NHELD; i++) {
+    if (mo_state[ids[i]] == MO_CONSTRUCTED) { del((var)(masked[i] ^ HIDE_MASK)); expect_released(ids[i], "del-of-an-object-taken-out-of-a-root-tuple"); }
+  }
+  del_root(holder);
+  vh_count("managed_objects_referenced_by_a_root_tuple_only");
+}
+
 /* ---------- the mutator ---------- */
 
 static void run_ops(vh_rng* r, struct world* w, int nops, const char* who) {
@@ -429,9 +460,9 @@ static void run_ops(vh_rng* r, struct world* w, int nops, const char* who) {
       c = NULL;
     } else if (roll < 62 && !w->stopped) {
       family_case(r, who);
-    } else if (roll < 63 && !w->stopped) {
-      int pick = (int)vh_below(r, 3);
-      if (pick == 0) { ring_case(r, who); } else if (pick == 1) { linked_roots_case(r, who); } else { tls_only_case(r, who); }
+    } else if (roll < 64 && !w->stopped) {
+      int pick = (int)vh_below(r, 4);
+      if (pick == 0) { ring_case(r, who); } else if (pick == 1) { linked_roots_case(r, who); } else if (pick == 2) { tls_only_case(r, who); } else { root_tuple_case(r, who); }
     } else if (roll < 72) {
       if (h->p) { delete_held(h, w->stopped ? "-inside-stop-window" : ""); if (w->stopped) { vh_count("deletions_inside_stop_window"); } }
     } else if (roll < 80) {
